@@ -12,7 +12,8 @@ for _i in OWN:
     INV_PROP[_i] = PROP
 RULE = ('one case = one seeded execution of a 2-4 voter cluster (memory or file journal, some runs with kill/restart that '
         'replays the journal) in which a drawn subset of the commands raises deterministically on every replica (boom(tag) '
-        'raises ValueError after recording its execution); mild network faults; after a quiet period every replica must have '
+        'raises one of six exception kinds after recording its execution; echo(tag, <argument that cannot be unpickled>) raises '
+        'while the command is decoded); mild network faults; after a quiet period every replica must have '
         'moved past every raising command, every callback must have fired exactly once, later commands must be applied and '
         'replicas identical; distinct = distinct event/state log digest; non-trivial = at least one raising command was '
         'committed and at least one later command was submitted')
@@ -34,7 +35,7 @@ class C12Oracle(RaftOracle):
 
     def after_event(self, ev, out, touched):
         w = self.w
-        if ev[1] == 'sub' and ev[3] == 'boom':
+        if ev[1] == 'sub' and ev[3] in ('boom', 'boomarg'):
             self.boom_tags.add(ev[4])
         for (idx, inc, pos, tag, extra) in w.step_applies:
             k = (idx, inc, pos)
@@ -48,6 +49,9 @@ class C12Sched(Scheduler):
     def make_submit(self):
         ev = Scheduler.make_submit(self)
         if ev is not None and self.rng.random() < self.s.get('p_boom', 0.2):
+            if self.rng.random() < self.s.get('p_boomarg', 0.0):
+                # raises while the arguments of the command are rebuilt, before the method body runs
+                return ['sub', ev[1], 'boomarg', ev[3]]
             return ['sub', ev[1], 'boom', ev[3]]
         return ev
 
@@ -63,6 +67,7 @@ class C12Spec(c01.C01Spec):
         conf = cfg['conf']
         s = cfg['sched']
         s['p_boom'] = rng.choice([0.05, 0.2, 0.5])
+        s['p_boomarg'] = rng.choice([0.0, 0.2, 0.5])
         s['steps'] = rng.choice([800, 2000])
         s['max_subs'] = 60
         s['w_part'] = 0.0
